@@ -153,6 +153,8 @@ def model_route(ctx, d, rng, n, spikes, nsw, tag):
     (incl. a non-stored id below the largest stored one) and of non-stored spikes only."""
     from .. import datasets as D
     ns = len(spikes)
+    # the store is exported with a unit factor (windows times the factor); the raw-data fallback returns samples
+    factor = [1., 2, 0.5, 2.][int(rng.randint(4))]
     ds = D.random_dense(rng, ns=ns, nt=2, nc=NCH, nsw=nsw, raw=True)
     ds['samples'] = np.asarray(spikes)
     ds['chmap'] = np.arange(NCH)
@@ -161,7 +163,8 @@ def model_route(ctx, d, rng, n, spikes, nsw, tag):
     p = D.write_dataset(d / ('m%s' % tag), ds)
     m = D.load(p)
     try:
-        m.save_spikes_subset_waveforms(max_n_spikes_per_template=int(rng.randint(1, 3)), max_n_channels=int(rng.randint(1, NCH + 1)))
+        m.save_spikes_subset_waveforms(max_n_spikes_per_template=int(rng.randint(1, 3)), max_n_channels=int(rng.randint(1, NCH + 1)),
+                                       sample2unit=factor)
     finally:
         m.close()
     m = D.load(p)
@@ -182,7 +185,7 @@ def model_route(ctx, d, rng, n, spikes, nsw, tag):
             cids = [int(c) for c in rng.permutation(NCH)[:int(rng.randint(1, NCH + 1))]]
             w = m.get_waveforms(np.asarray(req, dtype=np.int64), np.asarray(cids))
             all_stored = all(i in stch for i in req)
-            o = decode(np.asarray(w), 1)
+            o = decode(np.asarray(w), factor if all_stored else 1)
             if isinstance(o, str) or np.asarray(w).shape != (len(req), nsw, len(cids)):
                 raise ValueError('get_waveforms(%r, %r) returned shape %r / values that are not samples of the '
                                  'recording' % (req, cids, np.asarray(w).shape))
